@@ -516,7 +516,9 @@ def obligations(tier, seed):
     for ops in itertools.product(H_OPS, repeat=other_len):
         out.append({"name": f"headers[{'+'.join(ops)}]", "body": "body_headers", "params": {"ops": list(ops)},
                     "opts": {"budget_s": 600, "ctx": {"max_cp": 0x7F}}, "witness": ops == ("add", "set")})
-    for cls in ("MultiDict", "OrderedMultiDict") if not quick else ("MultiDict",):
+    # (the deprecated OrderedMultiDict orders pairs globally, not per key: a different abstract
+    # model, not named by the property -- outside the claim)
+    for cls in ("MultiDict",):
         for ops in itertools.product(MD_OPS, repeat=other_len):
             out.append({"name": f"multidict[{cls},{'+'.join(ops)}]", "body": "body_multidict", "params": {"ops": list(ops), "cls": cls},
                         "opts": {"budget_s": 600, "ctx": {"max_cp": 0x7F}}, "witness": ops == ("add", "pop")})
